@@ -2,7 +2,7 @@
    Theorems about the reference interpreter (model/C15_Interp.v); every proof is
    [exact <lemma>]. *)
 From verif Require Import lib.Base model.C15_Syntax model.C15_Values model.C15_Interp model.C21
-  proofs.C21_proofs.
+  proofs.C21_proofs proofs.C21_trace.
 
 (* The restores collected by a list of assignments — complete or cut short by
    a failing assignment — applied most recent first to ANY later state of the
@@ -17,23 +17,119 @@ Theorem C21_restores_undo_assignments : forall ts s vs s' rs st,
 Proof. exact restores_undo_assignments. Qed.
 Print Assumptions C21_restores_undo_assignments.
 
+(* ------------------------------------------------------------------ *)
+(* Trace theorems.  The interpreter keeps a ghost event log (no influence on
+   evaluation): GEnter/GExit f for closure call f, GReg/GRun f d for a tmp
+   restore or defer callback d registered / performed by frame f, GWAssign /
+   GWRestore w d for `with` instance w.  [gl] is the log (most recent first),
+   [evs_of id] the events carrying one id, [gn s] the next fresh id; WF holds
+   of the start state and is preserved.  Proved by induction over the
+   fuel-indexed evaluation with a log invariant (proofs/C21_trace.v:
+   eval_good), so the statements hold for every body — nesting tmp, with,
+   defer, loops, try and calls arbitrarily — and every exit path. *)
+
+Theorem C21_start_state_wf : forall b, WF (start_state b).
+Proof. intros b. split; unfold gf, gw, gn; simpl; lia. Qed.
+Print Assumptions C21_start_state_wf.
+
+(* defer / tmp: the run events of a closure call are exactly its registered
+   entries, each once, in reverse registration order, all after the last
+   registration and before the call's return event. *)
+Theorem C21_defers_once_reverse_trace :
+  forall n args rest opts body cenv isfn vals sopts inp s,
+  WF s ->
+  distribute rest (length args) vals <> None -> bind_opts opts sopts <> None ->
+  let r := eval (S n) (TCall (VClos args rest opts body cenv isfn) vals sopts inp) s in
+  finished r = true ->
+  exists new regs,
+    gl (fst r) = new ++ gl s
+    /\ rev (evs_of (gn s) new)
+       = [GEnter (gn s)] ++ map (GReg (gn s)) regs ++ map (GRun (gn s)) (rev regs) ++ [GExit (gn s)].
+Proof. exact defers_once_reverse_trace. Qed.
+Print Assumptions C21_defers_once_reverse_trace.
+
+(* with: restore events = reverse of the assignment events of that `with` —
+   also when a later assignment or the body fails: rs is exactly what was
+   assigned. *)
+Theorem C21_with_restores_reverse_trace : forall n assigns body inp s,
+  WF s ->
+  let r := eval (S n) (TCmd (CWith assigns body) inp) s in
+  finished r = true ->
+  exists new rs,
+    gl (fst r) = new ++ gl s
+    /\ rev (evs_of (gn s) new)
+       = map (GWAssign (gn s)) (rev rs) ++ map (GWRestore (gn s)) rs.
+Proof. exact with_restores_reverse_trace. Qed.
+Print Assumptions C21_with_restores_reverse_trace.
+
+(* tmp: every restore registered in a frame is performed in the exit segment of
+   that closure call, on every exit path ... *)
+Theorem C21_tmp_restores_at_fn_exit_trace :
+  forall n args rest opts body cenv isfn vals sopts inp s,
+  WF s ->
+  distribute rest (length args) vals <> None -> bind_opts opts sopts <> None ->
+  let r := eval (S n) (TCall (VClos args rest opts body cenv isfn) vals sopts inp) s in
+  finished r = true ->
+  exists new regs,
+    gl (fst r) = new ++ gl s
+    /\ rev (evs_of (gn s) new)
+       = ([GEnter (gn s)] ++ map (GReg (gn s)) regs) ++ map (GRun (gn s)) (rev regs) ++ [GExit (gn s)]
+    /\ forall a v, In (GReg (gn s) (DRestore a v)) new ->
+         In (DRestore a v) regs /\ In (GRun (gn s) (DRestore a v)) (map (GRun (gn s)) (rev regs)).
+Proof. exact tmp_restores_at_fn_exit_trace. Qed.
+Print Assumptions C21_tmp_restores_at_fn_exit_trace.
+
+(* ... and not earlier: whatever is evaluated while frame f is running (nested
+   blocks are closure calls with their own ids) adds under the id f nothing but
+   registrations — no restore, no callback, no return. *)
+Theorem C21_no_run_before_frame_exit : forall n t s,
+  WF s -> finished (eval n t s) = true ->
+  exists new, gl (fst (eval n t s)) = new ++ gl s
+    /\ forall e, In e new -> tag e = gf s -> exists d, e = GReg (gf s) d.
+Proof. exact no_run_before_frame_exit. Qed.
+Print Assumptions C21_no_run_before_frame_exit.
+
+(* the body's exception wins over a deferred one; a deferred exception surfaces
+   only if the body succeeded (return counts as success for fn) *)
+Theorem C21_exception_precedence :
+  forall n args rest opts body cenv isfn vals sopts inp s vals' obs s1 e1,
+  distribute rest (length args) vals = Some vals' ->
+  bind_opts opts sopts = Some obs ->
+  alloc_all s (combine args vals' ++ obs) cenv = (s1, e1) ->
+  let rb := eval n (TChunk body) (enter_frame (set_frame s1 e1 [] true)) in
+  let r := eval (S n) (TCall (VClos args rest opts body cenv isfn) vals sopts inp) s in
+  finished r = true ->
+  finished rb = true
+  /\ (forall k p, snd rb = Exc k p -> (k = KReturn -> isfn = false) -> snd r = Exc k p)
+  /\ (forall k p, snd r = Exc k p ->
+        (forall k' p', snd rb = Exc k' p' -> k' = KReturn /\ isfn = true) ->
+        snd (run_defers (eval n) (g_next (st_ghost s1)) (st_defers (fst rb))
+                        (set_defers (fst rb) []) None) = Exc k p).
+Proof. exact exception_precedence. Qed.
+Print Assumptions C21_exception_precedence.
+
+(* ------------------------------------------------------------------ *)
+(* One-step characterisations (for an arbitrary runner). *)
+
 (* with: after successful assignments, for every finished outcome o' of the
    body (normal, exception, break, continue, return) the collected restores
    are applied and the outcome is the body's. *)
 Theorem C21_with_restores_reverse : forall run assigns body inp s s1 vs s3 o',
-  with_assigns run assigns (set_wrest s []) = (s1, Done vs) ->
-  call_block run body (set_wrest s1 (st_wrest s)) = (s3, o') ->
+  with_assigns run assigns (enter_with (set_wrest s [])) = (s1, Done vs) ->
+  call_block run body (leave_with (set_wrest s1 (st_wrest s)) (g_wid (st_ghost s))) = (s3, o') ->
   finished_o o' = true ->
-  step_cmd run (CWith assigns body) inp s = (apply_restores s3 (st_wrest s1), norm o').
+  step_cmd run (CWith assigns body) inp s
+  = (with_undo (g_next (st_ghost s)) (st_wrest s1) s3, norm o').
 Proof. exact with_restores_reverse. Qed.
 Print Assumptions C21_with_restores_reverse.
 
 (* with: an assignment raised — the body is not run and what was assigned so
    far is restored. *)
 Theorem C21_with_partial_assign_restored : forall run assigns body inp s s1 k p,
-  with_assigns run assigns (set_wrest s []) = (s1, Exc k p) ->
+  with_assigns run assigns (enter_with (set_wrest s [])) = (s1, Exc k p) ->
   step_cmd run (CWith assigns body) inp s
-  = (apply_restores (set_wrest s1 (st_wrest s)) (st_wrest s1), Exc k p).
+  = (with_undo (g_next (st_ghost s)) (st_wrest s1)
+       (leave_with (set_wrest s1 (st_wrest s)) (g_wid (st_ghost s))), Exc k p).
 Proof. exact with_partial_assign_restored. Qed.
 Print Assumptions C21_with_partial_assign_restored.
 
@@ -46,15 +142,16 @@ Theorem C21_closure_runs_defers_once :
   distribute rest (length args) vals = Some vals' ->
   bind_opts opts sopts = Some obs ->
   alloc_all s (combine args vals' ++ obs) cenv = (s1, e1) ->
-  run (TChunk body) (set_frame s1 e1 [] true) = (s3, o) ->
+  run (TChunk body) (enter_frame (set_frame s1 e1 [] true)) = (s3, o) ->
   finished_o o = true ->
   call_closure run args rest opts body cenv isfn vals sopts s
   = let o1 := match o with
                | Exc KReturn _ => if isfn then Done [] else o
                | _ => norm o
                end in
-    settle (run_defers run (st_defers s3) (set_defers s3 []) None) (fun s4 o' =>
-      (set_frame s4 (st_env s) (st_defers s) (st_infn s),
+    let fid := g_next (st_ghost s1) in
+    settle (run_defers run fid (st_defers s3) (set_defers s3 []) None) (fun s4 o' =>
+      (leave_frame (set_frame s4 (st_env s) (st_defers s) (st_infn s)) fid (g_frame (st_ghost s)),
        match o1 with
        | Done _ => norm o'
        | _ => o1
@@ -69,7 +166,7 @@ Theorem C21_tmp_restores_at_fn_exit :
   distribute rest (length args) vals = Some vals' ->
   bind_opts opts sopts = Some obs ->
   alloc_all s (combine args vals' ++ obs) cenv = (s1, e1) ->
-  run (TChunk body) (set_frame s1 e1 [] true) = (s3, o) ->
+  run (TChunk body) (enter_frame (set_frame s1 e1 [] true)) = (s3, o) ->
   finished_o o = true ->
   (forall d, In d (st_defers s3) -> exists a v, d = DRestore a v) ->
   st_store (fst (call_closure run args rest opts body cenv isfn vals sopts s))
@@ -79,15 +176,16 @@ Print Assumptions C21_tmp_restores_at_fn_exit.
 
 (* The deferred list is consumed front to back — most recently registered
    first — each entry exactly once; only the first exception is kept. *)
-Theorem C21_defers_once_reverse : forall run,
-  (forall s first, run_defers run [] s first
+Theorem C21_defers_once_reverse : forall run fid,
+  (forall s first, run_defers run fid [] s first
      = match first with None => ret s [] | Some (k, p) => throw s k p end)
   /\ (forall a v r s first,
-       run_defers run (DRestore a v :: r) s first = run_defers run r (store_at s a v) first)
+       run_defers run fid (DRestore a v :: r) s first
+       = run_defers run fid r (emit (store_at s a v) [GRun fid (DRestore a v)]) first)
   /\ (forall f r s first,
-       run_defers run (DCall f :: r) s first
-       = settle (run (TCall f [] [] []) s) (fun s' o =>
-           run_defers run r s'
+       run_defers run fid (DCall f :: r) s first
+       = settle (run (TCall f [] [] []) (emit s [GRun fid (DCall f)])) (fun s' o =>
+           run_defers run fid r s'
              match first, o with
              | None, Exc k p => Some (k, p)
              | _, _ => first
@@ -97,20 +195,20 @@ Print Assumptions C21_defers_once_reverse.
 
 (* A deferred callback that succeeds does not alter the result: the rest of the
    list is processed from its final state with the same pending exception. *)
-Theorem C21_defer_success_contributes_nothing : forall run f r s first s' vs,
-  run (TCall f [] [] []) s = (s', Done vs) ->
-  run_defers run (DCall f :: r) s first = run_defers run r s' first.
+Theorem C21_defer_success_contributes_nothing : forall run fid f r s first s' vs,
+  run (TCall f [] [] []) (emit s [GRun fid (DCall f)]) = (s', Done vs) ->
+  run_defers run fid (DCall f :: r) s first = run_defers run fid r s' first.
 Proof. exact defer_success_contributes_nothing. Qed.
 Print Assumptions C21_defer_success_contributes_nothing.
 
 (* A frame whose deferred callbacks all succeed reports no deferred exception,
    so the closure call ends with the body's own outcome. *)
-Theorem C21_defers_all_succeed_keep_outcome : forall run ds s,
+Theorem C21_defers_all_succeed_keep_outcome : forall run fid ds s,
   (forall d, In d ds -> match d with
                         | DRestore _ _ => True
                         | DCall f => forall s0, exists s1 vs, run (TCall f [] [] []) s0 = (s1, Done vs)
                         end) ->
-  exists s', run_defers run ds s None = ret s' [].
+  exists s', run_defers run fid ds s None = ret s' [].
 Proof. exact defers_all_succeed_keep_outcome. Qed.
 Print Assumptions C21_defers_all_succeed_keep_outcome.
 
@@ -118,7 +216,8 @@ Print Assumptions C21_defers_all_succeed_keep_outcome.
 Theorem C21_defer_registers_front : forall run f s,
   st_infn s = true ->
   (exists a r o b c i, f = VClos a r o b c i) ->
-  apply_builtin run BDefer [f] [] [] s = ret (set_defers s (DCall f :: st_defers s)) [].
+  apply_builtin run BDefer [f] [] [] s
+  = ret (emit (set_defers s (DCall f :: st_defers s)) [GReg (g_frame (st_ghost s)) (DCall f)]) [].
 Proof. exact defer_registers_front. Qed.
 Print Assumptions C21_defer_registers_front.
 
@@ -128,7 +227,7 @@ Theorem C21_defer_exception_masked_by_body :
   distribute rest (length args) vals = Some vals' ->
   bind_opts opts sopts = Some obs ->
   alloc_all s (combine args vals' ++ obs) cenv = (s1, e1) ->
-  run (TChunk body) (set_frame s1 e1 [] true) = (s3, Exc k p) ->
+  run (TChunk body) (enter_frame (set_frame s1 e1 [] true)) = (s3, Exc k p) ->
   finished_o (snd (call_closure run args rest opts body cenv false vals sopts s)) = true ->
   snd (call_closure run args rest opts body cenv false vals sopts s) = Exc k p.
 Proof. exact defer_exception_masked_by_body. Qed.
@@ -161,6 +260,21 @@ Example C21_example_defer_in_loop :
                 [CBuiltin BPut [EVar 0%N] []]] None]] in
   outputs (run_program default_fuel true p) = [VStr [97%N]; VStr [100%N]; VStr [98%N]; VStr [100%N]].
 Proof. vm_compute. reflexivity. Qed.
+
+(* the ghost trace of  { defer { put a }; tmp-free body; defer { put b } } :
+   frame 2 registers two callbacks and runs them in reverse order before returning
+   (frames 3 and 4 are the callbacks' own calls) *)
+Example C21_example_trace :
+  let cb x := ELam [] None [] [[CBuiltin BPut [EStr [x]] []]] in
+  let p := [[CCall (ELam [] None [] [[CBuiltin BDefer [cb 97%N] []]; [CBuiltin BDefer [cb 98%N] []]]) [] []]] in
+  let r := run_program default_fuel true p in
+  map (fun e => match e with
+                | GEnter f => (0, f) | GExit f => (1, f) | GReg f _ => (2, f)
+                | GRun f _ => (3, f) | GWAssign f _ => (4, f) | GWRestore f _ => (5, f)
+                end) (rev (evs_of 2 (g_log (st_ghost (fst r)))))
+  = [(0, 2); (2, 2); (2, 2); (3, 2); (3, 2); (1, 2)]%nat
+  /\ outputs r = [VStr [98%N]; VStr [97%N]].
+Proof. vm_compute. split; reflexivity. Qed.
 
 (* var x = a; with [x = b] [x = c] { put $x }; put $x   ==>  c a *)
 Example C21_example_with_twice :
